@@ -150,6 +150,14 @@ def check_el(pc, c):
             if b2:
                 bad.append((b2[0][0] + ":strength-scale", dict(b2[0][1], scale=sc_)))
                 break
+    if not bad and len(h) >= 3:
+        # the order in which the layers are listed (top-down tables, unsorted concatenations) is not part of the profile
+        perm = np.argsort(np.sin(1.0 + 5.0 * np.arange(len(h))))
+        for label, ix in (("top-down", np.arange(len(h))[::-1]), ("shuffled", perm)):
+            b2 = laws_el(h[ix], p[ix], c["L"], pc.equivalent_layers(h[ix].copy(), p[ix].copy(), c["L"], w=w[ix].copy()), w=w[ix])
+            if b2:
+                bad.append((b2[0][0] + ":layers-listed-" + label, b2[0][1]))
+                break
     drift = []
     if not bad and not c["onedge"]:
         got = np.asarray(pc.equivalent_layers(h.copy(), p.copy(), c["L"])[1], float)
